@@ -518,7 +518,7 @@ func (w *world) raceRound(rd, G int) (bool, int) {
 	for _, b := range batch {
 		b.t.Batch = false
 	}
-	w.taint = map[common.Address]string{}
+	w.taint, w.taintInfo = map[common.Address]string{}, map[common.Address]string{}
 	after := fmt.Sprintf("round %d (%d goroutines, %d txs, %d commits, drop0=%v)", rd, G, len(batch), len(saved), drop0)
 	w.afterOp(opCtx{kind: "round", sender: -1, round: rd + 1}, after)
 	if !w.stop {
